@@ -76,5 +76,9 @@ package cmdutils
 //@   ghostset @call:cmdutils.(*StatementElement).Accept descended
 //@   ghostclear @call:cmdutils.(*StatementElement).Accept released
 //@   ghostset @mapupdate:map[string]int released
+//@   ghostset @call:cmdutils.(*SequenceDiagramWriter).Activate shown
+//@   ghostclear @call:cmdutils.(*SequenceDiagramWriter).Activate closed
+//@   ghostset @call:cmdutils.(*SequenceDiagramWriter).Deactivate closed
+//@   ensures [direct-activation-is-closed] result == nil && ghost("shown") ==> ghost("closed")
 //@   ensures [in-progress-mark-released] result == nil && ghost("descended") ==> ghost("released")
 //@   assert @call:cmdutils.(*StatementElement).Accept [expanded-only-when-not-in-progress] !hitVisited && in(visiting, v.visited) && arg0.stmts == endpoint.Stmt && arg0.isLastParentStmt
